@@ -506,6 +506,25 @@ def outside_fragment(text):
     return bool(_OUTSIDE.search(text)) or text.strip() == ""
 
 
+_OPCH = set("+-*/%<>=!&|^~?:.")
+
+
+def compact(text):
+    """the same token sequence with blanks only where two neighbours could fuse into another token"""
+    toks = text.split()
+    out = []
+    for i, t in enumerate(toks):
+        if i:
+            p = toks[i - 1]
+            glue_ops = p[-1] in _OPCH and t[0] in _OPCH
+            glue_words = (p[-1].isalnum() or p[-1] == "_") and (t[0].isalnum() or t[0] == "_")
+            num_dot = (p[-1].isdigit() and t[0] == ".") or (p[-1] == "." and t[0].isdigit())
+            if glue_ops or glue_words or num_dot:
+                out.append(" ")
+        out.append(t)
+    return "".join(out)
+
+
 def primary_lbracket(text, safe):
     """array literals are outside the modelled fragment: a `[` in operand position, or after a `)`
     when the stream trips the cast look-ahead"""
@@ -736,6 +755,18 @@ def property_oracle(impl_dir, seed, t):
         cases = [(vs, [tmin, tfull]) for vs, v in zip(cands, ev) if v is not None][:30]
         exp = [v for v in ev if v is not None][:30]
         outs = run_eval_cases(impl_dir, cases)
+        for (vs, _), o, want in zip(cases[:3], outs[:3], exp[:3]):
+            if not isinstance(o, list):
+                # the two-line program failed: run each form alone
+                r1 = common.run_cb(impl_dir, eval_program([(vs, [tmin])]))
+                r2 = common.run_cb(impl_dir, eval_program([(vs, [tfull])]))
+                s1 = (r1[0], r1[1].strip()); s2 = (r2[0], r2[1].strip())
+                if s1 != s2:
+                    payload.update({"values": dict(zip(VARS, vs)), "minimal_alone": {"rc": r1[0], "stdout": r1[1], "stderr": r1[2][:300]},
+                                    "full_alone": {"rc": r2[0], "stdout": r2[1], "stderr": r2[2][:300]}, "value_of_the_tree": want,
+                                    "program": eval_program([(vs, [tmin, tfull])])})
+                    return True, "println(%s) gives exit %s output %r but println(%s) gives exit %s output %r with %s" % (
+                        tmin, s1[0], s1[1], tfull, s2[0], s2[1], dict(zip(VARS, vs))), payload
         for (vs, _), o, want in zip(cases, outs, exp):
             if isinstance(o, list) and o[0] != o[1]:
                 payload.update({"values": dict(zip(VARS, vs)), "printed_minimal": o[0], "printed_full": o[1],
@@ -889,6 +920,22 @@ def run(rep):
         rep.violation("model-roundtrip", {"tree": sx(t), "text": text, "model": p_},
                       "extracted model contradicts roundtrip_general on a safe well-formed tree (model/extraction defect)", True)
 
+    # ---------------- (2b) the real lexer: the same token sequence written compactly (a+b*c) must give the
+    # same AST as the blank-separated text the model is compared on
+    sel = [k for k in range(len(texts)) if mt[k]["nogtlp"] and im[k] is not None and not str(im[k]).startswith(("ERR", "CRASH"))]
+    sel = sel[::2] if quick else sel
+    ctexts = [compact(texts[k]) for k in sel]
+    cim = impl_dumps(impl, ctexts, [True] * len(ctexts))
+    n_compact = 0
+    for k, ct, ci in zip(sel, ctexts, cim):
+        n_compact += 1
+        if ci != im[k]:
+            violations.append(("text", ct, {"origin": "compact-spelling", "text": ct, "model": "same AST as `%s`: %s" % (texts[k], im[k]), "impl": ci}))
+    hist["compact-spelling"] = n_compact
+    n_eval += n_compact
+    if ctexts:
+        samples.append({"origin": "compact-spelling", "text": ctexts[len(ctexts) // 2], "same_ast_as": texts[sel[len(ctexts) // 2]]})
+
     # ---------------- (3) malformed token streams (one program each)
     n_mal = 2500 if quick else 25000
     base = [m["text"] for m, o in zip(mt, origin) if o.startswith("random")]
@@ -1003,10 +1050,13 @@ def run(rep):
         x = rng.choice(free)
         if rng.random() < 0.5:
             inc = (rng.choice(["PRE", "POST"]), rng.choice(["++", "--"]), ("V", x))
-            t = ("B", rng.choice(BINOPS), inc, pure) if rng.random() < 0.5 else ("B", rng.choice(BINOPS), pure, inc)
-            if rng.random() < 0.3:
-                t = ("U", rng.choice(UNOPS), inc) if rng.random() < 0.5 else ("B", rng.choice(BINOPS), ("U", rng.choice(UNOPS), inc), pure)
-            guard = ("B", t[1], ("V", x), pure) if t[0] == "B" and t[2] == inc else pure
+            # the value the operand contributes (for the definedness guard evaluated in the model)
+            val = ("V", x) if inc[0] == "POST" else ("B", "+" if inc[1] == "++" else "-", ("V", x), ("N", 1))
+            r = rng.random()
+            shape = (lambda h: ("B", o_, h, pure)) if r < 0.35 else (lambda h: ("B", o_, pure, h)) if r < 0.7 else \
+                    (lambda h: ("U", u_, h)) if r < 0.8 else (lambda h: ("B", o_, ("U", u_, h), pure))
+            o_, u_ = rng.choice(BINOPS), rng.choice(UNOPS)
+            t, guard = shape(inc), shape(val)
             stmt = False
         else:
             op = rng.choice(ASGOPS)
@@ -1098,6 +1148,15 @@ def run(rep):
                       "proof obligation %s no longer checks (generated ladder table/shape changed?)" % cq["failed_theorem"],
                       no_failing_input=not found)
 
+    # ---------------- (5b) thorough: independent re-check of the compiled proofs
+    if not quick and cq["ok"]:
+        with common.Lock("coq"):
+            rc, o, e = common.sh(["coqchk", "-silent", "-o", "-Q", ".", "Cb", "Cb.C02.Properties_C02"], cwd=common.COQ, timeout=1500)
+        summ = (o + e)[-700:]
+        rep.coverage["coqchk"] = {"rc": rc, "axioms": "none" if "Axioms: <none>" in summ else summ}
+        if rc != 0:
+            rep.violation("coqchk", {"log": summ}, "coqchk rejects the compiled C02 development", True)
+
     # ---------------- (6) known findings
     for f in common.known_findings(PROP):
         still, obs = replay_finding(impl, f)
@@ -1118,7 +1177,8 @@ def run(rep):
         "input_distribution": hist, "avoided_known_findings": avoided, "samples": samples,
     })
     rep.assumptions += [
-        "the lexer is not modelled: expression texts are printed with one blank between tokens",
+        "the lexer is not modelled: expression texts are printed with one blank between tokens; the real lexer is tied in by "
+        "re-parsing the compact spelling (a+b*c) of the same token sequences and comparing ASTs",
         "identifiers are lower-case and name no type; await/try/checked/new/sizeof, casts to keyword types, method calls, "
         "chained calls and array literals are outside the modelled fragment (the malformed stream skips them)",
         "evaluation semantics are observed on the binary only; the model evaluator (int range, C division/shift) is used to pick "
